@@ -139,6 +139,9 @@ var specs = map[string]*propSpec{
 		assumptions: assume("the code has no lease expiry/GC, so 'first given' is over the whole history", "single-address ranges are refused by the plugin's setup and are not driven"),
 		runs: []runSpec{
 			{engine: "range", qBatches: 32, qCases: 8, tBatches: 192, tCases: 16},
+			// the same histories inside the network namespace, where the harness can give the host one of the
+			// leased addresses between two restarts
+			{engine: "range", netns: true, qBatches: 8, qCases: 6, tBatches: 32, tCases: 16},
 			{engine: "rangeconc", race: true, parallel: 8, qBatches: 16, qCases: 10, tBatches: 64, tCases: 30},
 			wireRun(0, 6),
 		},
@@ -151,6 +154,8 @@ var specs = map[string]*propSpec{
 		assumptions: assume("crash points are process kills and file copies at quiescent points, not power failures (fsync honesty is not observable)", "hostname round-trip through sqlite NUMERIC affinity is recorded but is not part of the property"),
 		runs: []runSpec{
 			{engine: "range", qBatches: 32, qCases: 4, tBatches: 128, tCases: 12},
+			// (inside the namespace: a leased address may become an address of the host between restarts)
+			{engine: "range", netns: true, qBatches: 8, qCases: 4, tBatches: 32, tCases: 12},
 			{engine: "rangekill", qBatches: 16, qCases: 4, tBatches: 32, tCases: 15},
 			// the range plugin is the one cgo path (go-sqlite3): hostile hostnames/MACs under AddressSanitizer
 			{engine: "range", buildFlags: []string{"-asan"}, parallel: 8, tBatches: 16, tCases: 6},
